@@ -97,6 +97,69 @@ def _interval_chunk(cfgs):
   return out
 
 
+ALLMASKS = tuple(range(16))
+
+
+def _band_chunk(cases):
+  """two geoms whose surfaces are apart by less than the sum of their margins along one signed coordinate axis (either id order): a contact
+  exists only because of the margin, so every bounding test of every filter must have been widened by it - all 16 masks, 3 broadphases, 2 worlds"""
+  import mujoco
+  import warp as wp
+
+  import mujoco_warp as mjw
+
+  out = []
+  for case in cases:
+    ax, sgn, ta, tb, gapfrac, rot = case
+    size = {"sphere": "0.1", "box": "0.1 0.08 0.06", "capsule": "0.05 0.1", "ellipsoid": "0.1 0.08 0.06", "cylinder": "0.07 0.09"}
+    ext = {"sphere": 0.1, "box": 0.14, "capsule": 0.15, "ellipsoid": 0.1, "cylinder": 0.12}
+    margin = 0.03
+    quat = ' quat="0.9 0.1 0.3 0.2"' if rot else ""
+    g = lambda n, t: f'<body name="{n}"><freejoint/><geom name="g{n}" type="{t}" size="{size[t]}" margin="{margin}"{quat if t != "sphere" else ""}/></body>'
+    xml = f'<mujoco><option gravity="0 0 0"/><worldbody>{g("a", ta)}{g("b", tb)}<body pos="3 3 3"><freejoint/><geom type="sphere" size="0.1"/></body></worldbody></mujoco>'
+    mjm = mujoco.MjModel.from_xml_string(xml)
+    m = mjw.put_model(mjm)
+    # put b on the signed axis at the distance where the surfaces are gapfrac * (2 margin) apart (bisection on MuJoCo's geom distance)
+    dd = mujoco.MjData(mjm)
+    lo, hi = 0.0, 1.0
+    axis = np.zeros(3)
+    axis[ax] = sgn
+    target = gapfrac * 2 * margin
+    for _ in range(40):
+      mid = 0.5 * (lo + hi)
+      dd.qpos[:] = mjm.qpos0
+      dd.qpos[7:10] = axis * mid
+      mujoco.mj_kinematics(mjm, dd)
+      if mujoco.mj_geomDistance(mjm, dd, 0, 1, 1.0, None) < target:
+        lo = mid
+      else:
+        hi = mid
+    qpos = np.tile(mjm.qpos0, (2, 1))
+    qpos[0, 7:10] = axis * 0.5 * (lo + hi)
+    qpos[1, 7:10] = axis * (0.5 * (lo + hi) + 0.2 * margin)
+    res = {}
+    for bp in (0, 1, 2):
+      for mask in ALLMASKS:
+        m.opt.broadphase, m.opt.broadphase_filter = bp, mask
+        d = mjw.make_data(mjm, nworld=2, nconmax=16)
+        wp.copy(d.qpos, wp.array(qpos.astype(np.float32), dtype=float))
+        mjw.kinematics(m, d)
+        mjw.collision(m, d)
+        res[(bp, mask)] = contact_multiset(d, 2)
+    ref = res[(0, 0)]
+    where = {"axis": ax, "sign": sgn, "types": [ta, tb], "gap_fraction_of_margin_sum": gapfrac, "rotated": rot}
+    if not ref[0]:
+      out.append(("MACHINERY", f"band scene has no contact under the all-pairs broadphase without filter: {where}", where))
+      continue
+    bad = [k for k, v in res.items() if v != ref]
+    if bad:
+      out.append(({"what": "contacts depend on the broadphase / filter", "broadphase": bad[0][0], "filter": str(bad[0][1]), "scene": "margin_band"},
+                  f"{len(bad)} of 48 (broadphase, mask) combinations differ from (NXN, 0), first {bad[0]}: {res[bad[0]]} vs {ref}", where))
+    else:
+      out.append(("ok", 1, None))
+  return out
+
+
 def _scene_chunk(args):
   import mujoco
 
@@ -162,7 +225,20 @@ def run(ctx: core.Ctx):
         ncon += msg
       else:
         ctx.violation(key, msg, scen)
-  ctx.traces_validated = len(cfgs) + len(recs)
+  # contacts that exist only inside the margin, along each signed coordinate axis, both id orders, rotated and not
+  types = ("sphere", "box", "capsule", "ellipsoid", "cylinder")
+  bands = [(ax, sgn, types[(ax + i) % 5], types[(ax + 2 * i + 1) % 5], gf, rot) for ax in range(3) for sgn in (1.0, -1.0) for i in range(2 if ctx.quick else 5)
+           for gf in (0.3, 0.8) for rot in (False, True)]
+  CH = max(1, len(bands) // 14 + 1)
+  for res in core.pmap(_band_chunk, [bands[i : i + CH] for i in range(0, len(bands), CH)], nproc=14):
+    for key, msg, scen in res:
+      if key == "MACHINERY":
+        raise RuntimeError(msg)
+      if key == "ok":
+        ctx.case({"scene": "margin_band"}, key=("band", ctx.evaluations))
+      else:
+        ctx.violation(key, msg, scen)
+  ctx.traces_validated = len(cfgs) + len(recs) + len(bands)
   ctx.extra["contacts_compared_in_family_scenes"] = ncon
   ctx.assumptions += ["contact multisets compared exactly after rounding (dist 1e-5, pos 1e-4): the narrowphase is the same code for every broadphase"]
 
